@@ -470,7 +470,7 @@ impl<'c> FW<'c> {
                 });
                 match self.expect_ok(what, r)? {
                     Ok(()) => {}
-                    Err(m) => return self.fail(CONS, "zst-count-mismatch", format!("{what}: {m}")),
+                    Err(m) => return self.fail(BUILD, "zst-count-mismatch", format!("{what}: {m}")),
                 }
             }
         }
@@ -629,6 +629,10 @@ impl World for ByValueWorld {
     }
     fn sweep_names() -> Vec<String> {
         sweep_cases().into_iter().map(|(n, _)| n).collect()
+    }
+    fn sweep_some(indices: &[u64]) -> Vec<(u64, FCase)> {
+        let all = sweep_cases();
+        indices.iter().filter_map(|i| all.get(*i as usize).map(|(_, c)| (*i, c.clone()))).collect()
     }
     fn sweep_case(i: u64) -> Option<FCase> {
         sweep_cases().into_iter().nth(i as usize).map(|(_, c)| c)
